@@ -91,4 +91,14 @@ Definition cdep_finalize (partitioned wait_resume : bool) (f : fault) (d : cdep)
   let '(o, l', _) := drop_finalizers f4 (cd_canaries d) in
   (o, {| cd_claimed := false; cd_paused := partitioned; cd_canaries := l'; cd_status := cd_status d |}).
 
+(* Finalize when the stable Deployment no longer exists: nothing to hand back, but the canary Deployments this release owns
+   still lose their finalizer (Get: not found; List; Get of the template: not found; then Delete) *)
+Definition cdep_finalize_gone (f : fault) (d : cdep) : outcome * cdep :=
+  let gone l := {| cd_claimed := false; cd_paused := false; cd_canaries := l; cd_status := cd_status d |} in
+  let '(fail1, f1) := api f VGet in if fail1 then (Failed, gone (cd_canaries d)) else
+  let '(fail2, f2) := api f1 VList in if fail2 then (Failed, gone (cd_canaries d)) else
+  let '(fail3, f3) := api f2 VGet in if fail3 then (Failed, gone (cd_canaries d)) else
+  let '(fail4, f4) := api f3 VList in if fail4 then (Failed, gone (cd_canaries d)) else
+  let '(o, l', _) := drop_finalizers f4 (cd_canaries d) in (o, gone l').
+
 Definition cdep_released (d : cdep) : bool := negb (cd_claimed d) && forallb negb (cd_canaries d).
